@@ -489,9 +489,20 @@ class Framer(tasking.Tasker):
             console.profuse("    False, empty enters\n")
             return False
 
+        claimed = set()  # original auxes of frames in enters
         for frame in enters:
             if not frame.checkEnter(exits=exits):
                 return False
+            for aux in frame.auxes:
+                # the same original aux may not be auxiliary of two frames
+                # of the outline being entered, frame.checkEnter can not see
+                # that since none of them has been entered yet
+                if aux.original:
+                    if aux in claimed:
+                        console.concise("    False. Aux '{0}' of '{1}' already used by "
+                                        "other frame in enters\n".format(aux.name, frame.name))
+                        return False
+                    claimed.add(aux)
         console.profuse("    True all {0}\n".format(self.name))
         return True
 
